@@ -10,8 +10,8 @@
     the property's quantifier, on several files used alternately in one process: [GFile n] switches the file, the
     dfan.c statics are shared) whose annotation-type arguments are 0..3 ([gop_ok]; other values index
     file_rec->an_num[] out of bounds in C). *)
-From Coq Require Import ZArith List Bool.
-Require Import H4.ANLang H4.gen.Gen_AN H4.ANSpec H4.ANModel H4.ANProofs H4.ANProofs2 H4.ANSim.
+From Coq Require Import ZArith List Bool Lia.
+Require Import H4.ANLang H4.gen.Gen_AN H4.ANSpec H4.ANModel H4.ANProofs H4.ANProofs2 H4.ANSim H4.ANSimD.
 Import ListNotations.
 Local Open Scope Z_scope.
 
@@ -118,26 +118,63 @@ Proof.
 Qed.
 Print Assumptions an_tree_is_file.
 
-(** PARTIAL (an_refines_map).  PROVED: the multi-file AN interface refines the map.  From ANY related pair (in
-    particular the empty file, [Sim_init], and every state of [reach]) one step of the harness on an AN operation
-    -- ANstart, ANend (i.e. reopen: unwritten annotations vanish), ANcreate, ANcreatef, ANwriteann (first write and
-    rewrite, longer or shorter), ANreadann, ANannlen, ANselect, ANfileinfo, ANnumann, ANannlist, ANtagref2id,
-    ANid2tagref, ANendaccess -- and one step of ANSpec.step fed the ref the library chose yield related states and
-    an accepted result (equal values; listings up to order; every buffer one of the images the specification
-    allows), unless the specification puts the call outside the domain ([RUnspec]: empty text, NUL in a label,
-    buffer < 1 byte) or the 16-bit ref space is exhausted (C20); [an_run_sim] lifts this to whole histories.
-    NOT proved (missing lemma: coherence of the cached DFAN directory with the file, and through DFANIopen across
-    several files): that the six DFAN operations return what ANSpec.step says (which label DFANgetlabel picks, that
-    DFANputlabel replaces a label of THAT object, DFANlablist, the file-annotation enumeration).  For them only
-    [an_reach_related] is proved (the state stays representable); their results rest on the R-vs-S and R-vs-M
-    correspondence and on [dfan_open_keeps_directory_iff_same_name]. *)
-Theorem an_refines_map_partial :
+(** THE REFINEMENT, for the whole operation language.  [SimD h a] = [Sim h a] plus the coherence of the cached DFAN
+    directory: outside an AN session every used entry (annotation ref, object tag/ref) of DFANdir[kind] is an
+    annotation of that kind in the file with that target, and every such annotation has an entry ([DirOK]).
+    One step of the harness on ANY operation -- the fourteen AN calls and DFANputlabel/DFANputdesc (replace the
+    annotation of THAT object, else allocate a fresh ref and append a directory entry), DFANgetlabel/DFANgetdesc and
+    their length calls (one of the object's annotations, with the specification's buffer image), DFANaddfid/
+    DFANaddfds, the DFANgetfid/DFANgetfds enumeration (all of them, in some order), DFANlablist (every object ref of
+    the tag with one of its labels, truncated, or the empty string) -- and one step of ANSpec.step fed the ref the
+    library chose yield related states and an accepted result, unless the specification puts the call outside the
+    domain ([RUnspec]: empty text, NUL in a label, buffer too small, DFAN call while this file's AN session is open),
+    the 16-bit ref space is exhausted (C20), or a file holds 400 or more file labels (the harness' loop bound).
+    [full_run_sim] lifts it to histories; [gstep_sim]/[grun_sim] to several files used alternately in one process
+    with pairwise different, NUL-free names shorter than DF_MAXFNLEN: each file refines its own map, and the cached
+    directory always belongs to the file named last (or to a file whose AN session is open, where no DFAN call is
+    in the domain), because DFANIopen drops it exactly when the name changes.
+    Domain decisions made explicit by this proof: the harness calls DFANclear() when an AN session ends (without
+    it the cached directory is stale after annotations were written through the AN interface); two different
+    files under one name cannot be told apart by DFANIopen and are outside the domain. *)
+Theorem an_refines_map :
+  (forall h a o h' mr a' sr, SimD h a -> full_op o -> mstep h o = (h', mr) -> step a (fill_full o mr) = (a', sr) ->
+     sr = RUnspec \/ exhausted sr mr \/ enum_capped a o \/ (SimD h' a' /\ accepts_full sr mr)) /\
+  (forall ops h a, SimD h a -> Forall full_op ops -> run_ok_full h a ops) /\
+  SimD hinit init /\
+  (forall idx g A o g' mr a' sr, GSim idx g A -> full_op o -> gstep g o = (g', mr) ->
+     step (A (g_cur g)) (fill_full o mr) = (a', sr) ->
+     sr = RUnspec \/ exhausted sr mr \/ enum_capped (A (g_cur g)) o \/
+     (GSim idx g' (upd A (g_cur g) a') /\ accepts_full sr mr)) /\
+  (forall idx xs g A, GSim idx g A -> Forall (gop_full idx) xs -> grun_ok g A xs) /\
+  (forall idx names, In 0 idx -> NamesOK idx names -> GSim idx (ginit names) (fun _ => init)).
+Proof.
+  split; [exact full_step_sim|]. split; [exact full_run_sim|]. split; [exact SimD_init|].
+  split; [exact gstep_sim|]. split; [exact grun_sim | exact GSim_init].
+Qed.
+Print Assumptions an_refines_map.
+
+(** the coherence invariant is established by a fresh DFANIlocate and kept by one that finds a directory; the result
+    of DFANIlocate is an annotation of that object iff there is one *)
+Theorem dfan_directory_coherent : forall s kind g r s' found, (kind = DFAN_LABEL \/ kind = DFAN_DESC) -> g <> 0 ->
+  DirOK s -> (forall d, In d (l_dds s) -> 1 <= d_ref d <= MAX_REF) ->
+  DFANIlocate s kind g r = (s', found) ->
+  DirOK s' /\ l_dds s' = l_dds s /\ same_tables s s' /\
+  (forall k, k <> kind -> l_dir s' k = l_dir s k) /\
+  (found <> 0 -> exists d, In d (l_dds s) /\ d_tag d = dfan_tag kind /\ d_ref d = found /\ decode_target (d_data d) = (g, r)) /\
+  (found = 0 -> forall d, In d (l_dds s) -> d_tag d = dfan_tag kind -> decode_target (d_data d) <> (g, r)) /\
+  (found = 0 -> l_dir s' kind = None -> of_tag (dfan_tag kind) (l_dds s) = []) /\
+  (l_dir s' kind = None \/ exists b, l_dir s' kind = Some b).
+Proof. exact locate_spec. Qed.
+Print Assumptions dfan_directory_coherent.
+
+(** corollary kept from the earlier round: the AN interface alone needs no directory invariant *)
+Theorem an_refines_map_an_interface :
   (forall h a o h' mr a' sr, Sim h a -> an_op o -> mstep h o = (h', mr) -> step a (fill o mr) = (a', sr) ->
      sr = RUnspec \/ exhausted sr mr \/ (Sim h' a' /\ accepts sr mr)) /\
   (forall ops h a, Sim h a -> Forall an_op ops -> run_ok h a ops) /\
   Sim hinit init.
 Proof. split; [exact an_step_sim | split; [exact an_run_sim | exact Sim_init]]. Qed.
-Print Assumptions an_refines_map_partial.
+Print Assumptions an_refines_map_an_interface.
 
 (** write, then read (M-level, any buffer size >= 1): exactly the specification's buffer image and the text length *)
 Theorem an_write_then_read : forall names xs f id txt s' maxlen, Forall gop_ok xs ->
@@ -240,3 +277,28 @@ Example demo_listing_model_vs_spec :
   snd (step (fst (step (fst (step (fst (step (fst (step init OStart)) (OCreate 0 0 700 1 1))) (OCreate 1 0 700 1 2))) (OWrite 1 [66])))
             (OAnnlist 0 700 1)) = ROk [2; 1; 2] [].
 Proof. vm_compute. split; reflexivity. Qed.
+
+(** non-vacuity of [an_refines_map]: a history mixing both interfaces, and two files whose names are prefix-related *)
+Definition demo_full_ops : list op :=
+  [ODfPut 0 700 1 [65; 66] 0; ODfPut 1 700 1 [0; 1; 0] 0; ODfGet 0 700 1 8; ODfGetLen 1 700 1; ODfAddF 0 [70] 0; ODfGetFs 0;
+   ODfLablist 700 16; OStart; OCreate 0 0 700 1 0; OWrite 0 [67]; OAnnlist 0 700 1; OEnd; ODfGet 0 700 1 8; ODfPut 0 700 1 [68; 68; 68] 0].
+Ltac full_op_tac := first [ left; simpl; cbv [tyok u16]; intuition lia
+                          | right; simpl; cbv [kind_ok u16 DFAN_LABEL DFAN_DESC]; intuition lia ].
+Example demo_full_ops_ok : Forall full_op demo_full_ops.
+Proof. repeat (constructor; [full_op_tac|]). constructor. Qed.
+Example demo_full_run : run_ok_full hinit init demo_full_ops.
+Proof. exact (full_run_sim demo_full_ops hinit init SimD_init demo_full_ops_ok). Qed.
+Definition demo_names (n : Z) : list Z := if n =? 0 then [120; 46; 104; 46; 98] else [120; 46; 104].    (* "x.h.b", "x.h" *)
+Example demo_names_ok : NamesOK [0; 1] demo_names.
+Proof.
+  split.
+  - intros f f' [<-|[<-|[]]] [<-|[<-|[]]] E; try reflexivity; vm_compute in E; discriminate.
+  - intros f [<-|[<-|[]]]; (split; [intros x Hx; simpl in Hx; repeat (destruct Hx as [<-|Hx]; [discriminate|]); contradiction | vm_compute; reflexivity]).
+Qed.
+Example demo_two_files_run :
+  grun_ok (ginit demo_names) (fun _ => init)
+    [GOp (ODfPut 0 700 1 [65] 0); GFile 1; GOp (ODfPut 0 700 2 [66] 0); GFile 0; GOp (ODfGet 0 700 1 4); GOp (ODfGet 0 700 2 4)].
+Proof.
+  apply (grun_sim [0; 1]); [apply GSim_init; [left; reflexivity | exact demo_names_ok]|].
+  repeat (constructor; [first [full_op_tac | simpl; tauto]|]). constructor.
+Qed.
